@@ -163,7 +163,7 @@ def body(ctx):
 
 def plan(tier):
     if tier == "quick":
-        return [{"n": 500, "depth": 2} for _ in range(16)]
+        return [{"n": 400, "depth": 2} for _ in range(16)]
     # thorough: 12 shards of plain generated search + 4 in which libFuzzer's coverage feedback (atheris) steers the same generator
     return [{"n": 4000, "depth": 2 if i % 2 else 3} for i in range(12)] + [{"kind": "atheris", "n": 6000, "depth": 2} for _ in range(4)]
 
